@@ -591,14 +591,21 @@ where
     if f32t {
         llrs = llrs.into_iter().map(|x| x as f32 as f64).collect();
     }
-    if is_codeword(m.rows, &m.e, &sign_pattern(&llrs)) {
-        llrs[0] = -llrs[0];
-        if is_codeword(m.rows, &m.e, &sign_pattern(&llrs)) {
-            // variable 0 is in no check: flip one that is
-            llrs[0] = -llrs[0];
-            let v = m.e[0].1;
-            llrs[v] = -llrs[v];
+    // erased / punctured bits: exact zeros (one or two positions) in a third of the cases
+    let erased = !f32t && rng.chance(0.33); // (f32: the phi clamp at 1e-30 costs ~4e-6 absolute on the phi sums, too close to the f32 tolerance)
+    if erased {
+        for _ in 0..rng.range(1, 2) {
+            let i = rng.below(m.cols);
+            llrs[i] = if rng.coin() { 0.0 } else { -0.0 };
         }
+    }
+    if is_codeword(m.rows, &m.e, &sign_pattern(&llrs)) {
+        // change the sign pattern at a non-erased variable that is in some check
+        let v = m.e.iter().map(|x| x.1).find(|&v| llrs[v] != 0.0).unwrap_or(m.e[0].1);
+        llrs[v] = if llrs[v] == 0.0 { 1.0 } else { -llrs[v] };
+    }
+    if is_codeword(m.rows, &m.e, &sign_pattern(&llrs)) {
+        return; // (cannot happen: one sign of a checked variable was flipped)
     }
     let cws = all_codewords(m.rows, m.cols, &m.e);
     let post = posterior_llrs(&cws, &llrs);
